@@ -110,7 +110,10 @@ def regions(tree, act):
                     macro_vars.add(v.children[0].value)
             if not ok:
                 r.add("C03-malformed-macro")
+    macro_args = {id(n.children[2]) for n in tree.iter_subtrees() if n.data == "member_dot_arg" and len(n.children) == 3 and n.children[1].value in MACROS}
     for n in tree.iter_subtrees():
+        if id(n) in macro_args:
+            continue          # the body of a macro: the compiled macros return a body's error value as their result (fixed, 9fc53b6)
         if n.data in ("exprlist", "mapinits", "fieldinits") and any(isinstance(c, lark.Tree) and yields_error_value(c) for c in n.children):
             r.add("C03-error-value-as-element-or-argument")
     if any("." in k and k.split(".")[0] in macro_vars for k in act):
@@ -277,7 +280,9 @@ def build(rep, tier="quick", seed=0, known=None):
     from pyvc.parallel import run_contracts
     nested = SIM.nested_contracts()
     if tier != "thorough":          # quick: every pair that involves a unary operator (the foldable ones) or a parenthesis; thorough: all 361 pairs
-        nested = [c for c in nested if any(k in c.name for k in ("[neg(", "(neg(", "[not(", "(not(", "[paren(", "(paren("))]
+        logical = ("or_l", "and_r", "tern_c", "tern_l")
+        nested = [c for c in nested if any(k in c.name for k in ("[neg(", "(neg(", "[not(", "(not(", "[paren(", "(paren("))
+                  or any(c.name.startswith(f"sim2[{o}({i}(") for o in logical for i in logical)]       # ... and every nesting of the error-absorbing constructs
     run_contracts(SIM.contracts() + SIM.result_contracts() + nested, rep, known=known)
     SIM.same_callable_table(rep)
     # the other half of every simulation contract: the transpiler methods whose emitted text is executed, and result()
